@@ -8,7 +8,7 @@ VARIABLES phase, shape, x, y
 vars == <<phase, shape, x, y>>
 Shapes == {"fold-add", "fold-sub", "fold-mul", "fold-mulh", "fold-mulhu", "fold-mulhsu", "fold-div", "fold-divu", "fold-rem",
            "fold-remu", "fold-sll", "fold-srl", "fold-sra", "fold-slt", "fold-sltu", "fold-and", "fold-or", "fold-xor",
-           "addi-chain", "shift-imm", "sp-arith", "sp-offset", "orig-offset", "neg-not", "lui-addi", "data-word", "csr-imm", "stack-slot-math", "sp-far", "sp-far-call"}
+           "addi-chain", "shift-imm", "sp-arith", "sp-offset", "orig-offset", "neg-not", "lui-addi", "data-word", "csr-imm", "stack-slot-math", "sp-far", "sp-far-call", "mem-offset"}
 Small == { v \in Boundary : v >= -2048 /\ v <= 2047 }
 I(v) == ToString(v)
 Prog(sh, a, b) ==
@@ -25,6 +25,7 @@ Prog(sh, a, b) ==
     [] sh = "sp-offset"  -> "main:\n    addi sp, sp, " \o I(a) \o "\n    sw t0, " \o I(b) \o "(sp)\n    lw t1, " \o I(b) \o "(sp)\n    sb t0, " \o I(b) \o "(sp)\n" \o post
     [] sh = "sp-far"     -> "main:\n    li t0, " \o I(a) \o "\n    add sp, sp, t0\n    sw t1, " \o I(b) \o "(sp)\n    sb t1, " \o I(b) \o "(sp)\n    sh t1, " \o I(b) \o "(sp)\n    lw t2, " \o I(b) \o "(sp)\n    lbu t3, " \o I(b) \o "(sp)\n" \o post
     [] sh = "sp-far-call" -> "main:\n    li t0, " \o I(a) \o "\n    add sp, sp, t0\n    sw ra, " \o I(b) \o "(sp)\n    call f\n    lw ra, " \o I(b) \o "(sp)\n    sub sp, sp, t0\n" \o post \o "f:\n    addi sp, sp, -4\n    sw s0, 0(sp)\n    lw s0, 0(sp)\n    addi sp, sp, 4\n    ret\n"
+    [] sh = "mem-offset" -> "main:\n    addi sp, sp, " \o I(b) \o "\n    lw a0, " \o I(a) \o "(sp)\n    sw a0, " \o I(a) \o "(sp)\n    sb a0, " \o I(a) \o "(sp)\n    lw a1, " \o I(a) \o "(t0)\n" \o post
     [] sh = "orig-offset" -> "main:\n    li t0, " \o I(a) \o "\n    add t1, sp, t0\n    add t2, t1, t0\n    sub t3, t2, t0\n    lw a0, " \o I(b) \o "(t1)\n" \o post
     [] sh = "neg-not"    -> "main:\n    li t0, " \o I(a) \o "\n    neg t1, t0\n    not t2, t1\n    sub t3, zero, t0\n    mv a0, t3\n" \o post
     [] sh = "lui-addi"   -> "main:\n    lui t0, " \o I(a) \o "\n    addi t0, t0, " \o I(b) \o "\n    mv a0, t0\n" \o post
@@ -32,7 +33,7 @@ Prog(sh, a, b) ==
     [] sh = "csr-imm"    -> "main:\n    csrrwi t0, " \o I(a) \o ", " \o I(b) \o "\n    csrr t1, " \o I(a) \o "\n    csrw t1, " \o I(b) \o "\n" \o post
     [] sh = "stack-slot-math" -> "main:\n    addi sp, sp, -16\n    li t0, " \o I(a) \o "\n    sw t0, 4(sp)\n    sw zero, 8(sp)\n    lw t1, 4(sp)\n    addi t1, t1, " \o I(b) \o "\n    sw t1, 4(sp)\n    addi sp, sp, 16\n" \o post
 Args(sh) ==
-  CASE sh \in {"addi-chain", "sp-offset", "orig-offset", "lui-addi", "stack-slot-math", "sp-far", "sp-far-call"} -> Boundary \X Small
+  CASE sh \in {"addi-chain", "sp-offset", "orig-offset", "lui-addi", "stack-slot-math", "sp-far", "sp-far-call", "mem-offset"} -> Boundary \X Small
     [] sh = "shift-imm" -> Boundary \X {0, 1, 31}
     [] sh = "sp-arith" -> Small \X Small
     [] sh = "neg-not" -> Boundary \X {0}
